@@ -27,6 +27,8 @@ QUOTAS = """quotas:
     strategy:
       concurrent:
         max_request_count: %(C)d
+        request_expiration_sec: 3600
+        gc_interval_sec: 30
 """
 
 FLOW = """name: flow_%(q)s
@@ -775,6 +777,20 @@ def run(ctx):
                              ({"M": 3, "C": 1, "W": 10}, scrapes, "sched-scrape"), ({"M": 2, "C": 1, "W": 10}, with_scrapes, "sched-wscrape")):
         directed(ctx, binary, dcfg, group, tag)
 
+    # directed schedules on the concurrency quota: a transaction held between taking its slot in the shared set and registering
+    # itself (yield point cq.inc.after_sadd) while the background collection runs (the clock moves by the collection interval,
+    # one pass is awaited) and other transactions ask for slots: the held transaction keeps its slot - nobody is admitted on it
+    cq_scheds = [
+        [["take", 1], ["gc"], ["go", 1], ["req", 2], ["end", 1], ["req", 3], ["end", 3]],
+        [["take", 1], ["gc"], ["req", 2], ["go", 1], ["end", 1], ["end", 2], ["req", 3]],
+        [["take", 1], ["gc"], ["gc"], ["go", 1], ["req", 2], ["end", 1]],
+        [["req", 1], ["take", 2], ["gc"], ["go", 2], ["end", 1], ["take", 3], ["gc"], ["req", 4], ["go", 3]],
+    ]
+    directed(ctx, binary, {"M": 3, "C": 1, "W": 30}, cq_scheds, "cqsched", ev="cqsched", wlen=30)
+    directed(ctx, binary, {"M": 3, "C": 2, "W": 30},
+             [[["take", 1], ["take", 2], ["gc"], ["go", 2], ["req", 3], ["go", 1], ["end", 2], ["req", 4]],
+              [["req", 1], ["take", 2], ["gc"], ["req", 3], ["go", 2], ["end", 1], ["req", 4]]], "cqsched2", ev="cqsched", wlen=30)
+
     if T:
         ev = traces[0]
         k = next(i for i, e in enumerate(ev) if e.get("op") in ("reqfw", "reqcq") and e.get("out") == "refuse")
@@ -786,8 +802,8 @@ def run(ctx):
         ctx.notes.append("self-test: corrupted verdict rejected")
 
 
-def directed(ctx, binary, dcfg, scheds, tag):
-    dscript = script_of(dcfg, [[{"ev": "reset"}, {"ev": "sched", "w": 10, "steps": st}] for st in scheds])
+def directed(ctx, binary, dcfg, scheds, tag, ev="sched", wlen=10):
+    dscript = script_of(dcfg, [[{"ev": "reset"}, {"ev": ev, "w": wlen, "steps": st}] for st in scheds])
     dtr = execute(ctx, binary, [dscript], tag)
     ctx.sample({"kind": "directed-schedule", "steps": scheds[0], "recorded": split_histories(dtr[0])[1][0]})
     acc, rejected, _ = validate_history_trace(ctx, SPEC, "EngineLinTrace", dtr[0], tag=tag, deque=True, max_rounds=8)
@@ -795,7 +811,7 @@ def directed(ctx, binary, dcfg, scheds, tag):
     ctx.cov["evaluations"] += sum(1 for e in dtr[0] if e.get("ev") == "begin")
     ctx.cov["distinct_nontrivial"] += sum(1 for st in scheds if any(x[0] == "tick" for x in st))
     for rej in rejected:
-        sc1 = script_of(dcfg, [[{"ev": "reset"}, {"ev": "sched", "w": 10, "steps": sched_of(rej["hist"], scheds, dtr[0])}]])
+        sc1 = script_of(dcfg, [[{"ev": "reset"}, {"ev": ev, "w": wlen, "steps": sched_of(rej["hist"], scheds, dtr[0])}]])
         t2 = execute(ctx, binary, [sc1], tag + "-repro")[0]
         _, r2, _ = validate_history_trace(ctx, SPEC, "EngineLinTrace", t2, tag=tag + "-repro", deque=True, max_rounds=1)
         if not r2:
